@@ -107,6 +107,22 @@ class Stats:
                 'excluded': dict(self.excluded), 'notes': self.notes}
 
 
+def orders(items, seed: int):
+    """The same finite domain in three deterministic orders - as listed, reversed, and strided (a permutation derived from
+    the seed): a complete enumeration visited only once in a fixed order cannot see answers that depend on what was
+    asked before (caches keyed too coarsely, state shared between calls)."""
+    items = list(items)
+    n = len(items)
+    yield 'forward', items
+    yield 'reverse', items[::-1]
+    if n > 2:
+        import math
+        stride = (seed * 7919 + 104729) % n
+        while stride < 2 or math.gcd(stride, n) != 1:
+            stride = (stride + 1) % n or 2
+        yield 'strided', [items[(i * stride + seed) % n] for i in range(n)]
+
+
 def guard(clause: str, case: Any, fn: Callable, *a, **kw):
     """Call code under test; any exception it raises is a violation of `clause`
     (use only where the property says the call must succeed)."""
